@@ -172,6 +172,57 @@ ta_uri = "{TA_URI}"
         self.krill.ca_manager().ca_routes_update(ca_handle(ca), upd, &self.actor, &self.krill)
     }
 
+    pub fn keyroll_init(&self, ca: &str) -> KrillResult<()> {
+        self.krill.ca_manager().ca_keyroll_init(ca_handle(ca), chrono::Duration::seconds(0), &self.actor, &self.krill)
+    }
+
+    pub fn keyroll_activate(&self, ca: &str) -> KrillResult<()> {
+        self.krill.ca_manager().ca_keyroll_activate(ca_handle(ca), chrono::Duration::seconds(0), &self.actor, &self.krill)
+    }
+
+    /// ASPA update in the notation of the API, e.g. add "AS65001 => AS65002, AS65003", remove customer 65001.
+    pub fn aspas_update(&self, ca: &str, add_or_replace: &[&str], remove: &[u32]) -> KrillResult<()> {
+        let upd = api::aspa::AspaDefinitionUpdates {
+            add_or_replace: add_or_replace.iter().map(|s| api::aspa::AspaDefinition::from_str(s).expect("aspa")).collect(),
+            remove: remove.iter().map(|a| rpki::resources::Asn::from_u32(*a)).collect(),
+        };
+        self.krill.ca_manager().ca_aspas_definitions_update(ca_handle(ca), upd, &self.actor, &self.krill)
+    }
+
+    pub fn child_suspend(&self, parent: &str, child: &str, suspend: bool) -> KrillResult<()> {
+        let req = if suspend { UpdateChildRequest::suspend() } else { UpdateChildRequest::unsuspend() };
+        self.krill.ca_manager().ca_child_update(&ca_handle(parent), child_handle(child), req, &self.actor, &self.krill)
+    }
+
+    pub fn child_rcn_mapping(&self, parent: &str, child: &str, name_in_parent: &str, name_for_child: &str) -> KrillResult<()> {
+        let req = UpdateChildRequest::resource_class_name_mapping(api::admin::ResourceClassNameMapping {
+            name_in_parent: name_in_parent.into(), name_for_child: name_for_child.into(),
+        });
+        self.krill.ca_manager().ca_child_update(&ca_handle(parent), child_handle(child), req, &self.actor, &self.krill)
+    }
+
+    pub fn child_remove(&self, parent: &str, child: &str) -> KrillResult<()> {
+        self.krill.ca_manager().ca_child_remove(&ca_handle(parent), child_handle(child), &self.actor, &self.krill)
+    }
+
+    pub fn parent_remove(&self, ca: &str, parent: &str) -> KrillResult<()> {
+        self.krill.ca_manager().ca_parent_remove(ca_handle(ca), parent_handle(parent), &self.actor, &self.slow)
+    }
+
+    pub fn delete_ca(&self, ca: &str) -> KrillResult<()> {
+        self.krill.ca_manager().delete_ca(&ca_handle(ca), &self.actor, &self.slow)
+    }
+
+    /// The republish task's work (manifests/CRLs), returns the CAs that were re-issued.
+    pub fn republish(&self, force: bool) -> KrillResult<Vec<String>> {
+        Ok(self.krill.ca_manager().republish_all(force, &self.krill)?.into_iter().map(|h| h.to_string()).collect())
+    }
+
+    /// The renew task's work (ROAs, ASPAs, router certificates close to expiry).
+    pub fn renew(&self) -> KrillResult<()> {
+        self.krill.ca_manager().renew_objects_all(&self.actor, &self.krill)
+    }
+
     /// Names of the keys currently in a scope of the task queue ("pending"/"running").
     pub fn task_keys(&self, scope: &str) -> Vec<String> {
         let store = self.krill.storage().open(TASK_QUEUE_NS).expect("tasks store");
